@@ -394,23 +394,24 @@ Definition basic_toJson (self : pv -> res pv) (e : ety) (v : pv) : res pv :=
   | _ => Ok v
   end.
 
-Fixpoint tuple_toJson (self : pv -> res pv) (es : list ety) (i : nat) (n : nat) (v : pv) : res (list pv) :=
+(* the Tuple branch (both directions): for i, t in enumerate(args): conv(t, value[i]) if i < len(value) else None *)
+Fixpoint tuple_conv (f : ety -> pv -> res pv) (es : list ety) (i : nat) (n : nat) (v : pv) : res (list pv) :=
   match es with
   | [] => Ok []
   | e :: es' =>
-      do x <- (if Nat.ltb i n then do y <- py_index v i; basic_toJson self e y else Ok PNone);
-      do r <- tuple_toJson self es' (S i) n v;
+      do x <- (if Nat.ltb i n then do y <- py_index v i; f e y else Ok PNone);
+      do r <- tuple_conv f es' (S i) n v;
       Ok (x :: r)
   end.
 
-Fixpoint dict_toJson (self : pv -> res pv) (k e : ety) (kv : list (pv * pv)) (acc : list (pv * pv))
-  : res (list (pv * pv)) :=
+(* the Dict branch (both directions): for key, val in value.items(): map[conv(key)] = conv(val) *)
+Fixpoint dict_conv (fk fv : pv -> res pv) (kv : list (pv * pv)) (acc : list (pv * pv)) : res (list (pv * pv)) :=
   match kv with
   | [] => Ok acc
   | (key, val) :: kv' =>
-      do k' <- basic_toJson self k key;
-      do v' <- basic_toJson self e val;
-      if hashable k' then dict_toJson self k e kv' (dict_set acc k' v') else Err EType
+      do k' <- fk key;
+      do v' <- fv val;
+      if hashable k' then dict_conv fk fv kv' (dict_set acc k' v') else Err EType
   end.
 
 (* the body of the loop in Serializable.toJson for one field *)
@@ -424,12 +425,12 @@ Definition field_toJson (self : pv -> res pv) (t : ty) (v : pv) : res pv :=
       end
   | TDict k e =>
       match v with
-      | PDict kv => do kv' <- dict_toJson self k e kv []; Ok (PDict kv')
+      | PDict kv => do kv' <- dict_conv (basic_toJson self k) (basic_toJson self e) kv []; Ok (PDict kv')
       | _ => none_or_typeerror v
       end
   | TTuple es =>
       match py_iter v with
-      | Some l => do l' <- tuple_toJson self es 0 (length l) v; Ok (PList l')
+      | Some l => do l' <- tuple_conv (basic_toJson self) es 0 (length l) v; Ok (PList l')
       | None => none_or_typeerror v
       end
   | TGenOther => none_or_typeerror v
@@ -490,25 +491,6 @@ Definition basic_fromJson (self : Z -> pv -> res pv) (e : ety) (v : pv) : res pv
   | TBare k => py_container k v
   end.
 
-Fixpoint tuple_fromJson (self : Z -> pv -> res pv) (es : list ety) (i : nat) (n : nat) (v : pv) : res (list pv) :=
-  match es with
-  | [] => Ok []
-  | e :: es' =>
-      do x <- (if Nat.ltb i n then do y <- py_index v i; basic_fromJson self e y else Ok PNone);
-      do r <- tuple_fromJson self es' (S i) n v;
-      Ok (x :: r)
-  end.
-
-Fixpoint dict_fromJson (self : Z -> pv -> res pv) (k e : ety) (kv : list (pv * pv)) (acc : list (pv * pv))
-  : res (list (pv * pv)) :=
-  match kv with
-  | [] => Ok acc
-  | (key, val) :: kv' =>
-      do k' <- basic_fromJson self k key;
-      do v' <- basic_fromJson self e val;
-      if hashable k' then dict_fromJson self k e kv' (dict_set acc k' v') else Err EType
-  end.
-
 Definition field_fromJson (self : Z -> pv -> res pv) (t : ty) (v : pv) : res pv :=
   match t with
   | TBasic e => basic_fromJson self e v
@@ -524,12 +506,12 @@ Definition field_fromJson (self : Z -> pv -> res pv) (t : ty) (v : pv) : res pv 
       end
   | TDict k e =>
       match v with
-      | PDict kv => do kv' <- dict_fromJson self k e kv []; Ok (PDict kv')
+      | PDict kv => do kv' <- dict_conv (basic_fromJson self k) (basic_fromJson self e) kv []; Ok (PDict kv')
       | _ => none_or_typeerror v
       end
   | TTuple es =>
       match py_iter v with
-      | Some l => do l' <- tuple_fromJson self es 0 (length l) v; Ok (PTuple l')
+      | Some l => do l' <- tuple_conv (basic_fromJson self) es 0 (length l) v; Ok (PTuple l')
       | None => none_or_typeerror v
       end
   | TGenOther => none_or_typeerror v
